@@ -55,6 +55,7 @@ type entM struct {
 	typ      model.EntityTypeType
 	obj      api.EntityLocalInterface
 	feats    []*featM      // in the order they were attached
+	pending  []*featM      // numbered and created, AddFeature still to come
 	handed   map[uint]bool // every feature number this entity ever handed out
 	attached bool
 	fixed    bool // entity [0], created by NewDeviceLocal
@@ -250,6 +251,7 @@ type machine struct {
 	nontrivial      bool // a read saw >= 2 application entities after such a mutation
 	maxEnts         int
 	sawDedup        bool
+	sawLateAdd      bool
 	sawReadd        bool
 	sawNested       bool
 	sawClientFn     bool
@@ -439,7 +441,7 @@ func (m *machine) newFeature(t *rapid.T, e *entM, label string) string {
 		return kind
 	}
 	id := e.obj.NextFeatureId()
-	m.logf("%s NextFeatureId => %d; NewFeatureLocal(%d, %s, %s) + AddFeature", e.name(), id, id, typ, role)
+	m.logf("%s NextFeatureId => %d; NewFeatureLocal(%d, %s, %s)", e.name(), id, id, typ, role)
 	m.handOut(t, e, id, "NextFeatureId")
 	f := spine.NewFeatureLocal(id, e.obj, typ, role)
 	fm := &featM{id: id, typ: typ, role: role, funcs: map[model.FunctionType]opsM{}, obj: f}
@@ -450,6 +452,13 @@ func (m *machine) newFeature(t *rapid.T, e *entM, label string) string {
 		m.logf("  %s/%d SetDescriptionString(%q)", e.name(), id, s)
 	}
 	m.addFunctions(t, e, fm, f, 3, label)
+	if rapid.IntRange(0, 3).Draw(t, label+".addLater") == 0 {
+		// numbering and adding are two steps: the features need not be added in the order they were numbered
+		e.pending = append(e.pending, fm)
+		m.sawLateAdd = true
+		m.logf("  (AddFeature of %s/%d comes later)", e.name(), id)
+		return "feature-numbered-add-later"
+	}
 	e.obj.AddFeature(f)
 	if existing != nil {
 		// AddFeature keeps the first feature of a type and role; the number stays used up
@@ -661,6 +670,34 @@ func (m *machine) addFeature(t *rapid.T) {
 	m.mutated(m.newFeature(t, e, "feat"))
 }
 
+// addPending adds a feature that was numbered and created earlier.
+func (m *machine) addPending(t *rapid.T) {
+	var with []*entM
+	for _, e := range m.appEnts() {
+		if len(e.pending) > 0 {
+			with = append(with, e)
+		}
+	}
+	if len(with) == 0 {
+		t.Skip("no feature waits for AddFeature")
+	}
+	e := with[rapid.IntRange(0, len(with)-1).Draw(t, "entity")]
+	i := rapid.IntRange(0, len(e.pending)-1).Draw(t, "pending")
+	fm := e.pending[i]
+	e.pending = append(e.pending[:i:i], e.pending[i+1:]...)
+	existing := e.find(fm.typ, fm.role)
+	e.obj.AddFeature(fm.obj)
+	m.logf("%s AddFeature(feature %d, %s/%s) numbered earlier", e.name(), fm.id, fm.typ, fm.role)
+	if existing != nil {
+		m.sawDedup = true
+		m.logf("  (entity already has feature %d of %s/%s: the new one is dropped)", existing.id, fm.typ, fm.role)
+		m.mutated("addFeature-late-duplicate")
+		return
+	}
+	e.feats = append(e.feats, fm)
+	m.mutated("addFeature-late")
+}
+
 func (m *machine) pickFeature(t *rapid.T) (*entM, *featM) {
 	e := m.pickEntity(t)
 	if len(e.feats) == 0 {
@@ -708,14 +745,7 @@ func (m *machine) subscribe(t *rapid.T) {
 	pi := rapid.IntRange(0, len(m.peers)-1).Draw(t, "peer")
 	p := m.peers[pi]
 	if m.sub[pi] {
-		client := p.NM()
-		if p.Ents == nil {
-			// the stack does not know this peer's device address yet; the delete request leaves it
-			// out, as the subscription manager stored the pair (what it does with a delete request that
-			// names the device is C08's business)
-			client.Device = nil
-		}
-		ok := p.CallOK(world.UnsubscribeCall(client, world.LocalNM()))
+		ok := p.CallOK(world.UnsubscribeCall(p.NM(), world.LocalNM()))
 		m.logf("peer%d unsubscribes from node management => %v", pi+1, ok)
 		if !ok {
 			world.Fail(t, "C07/precondition/unsubscribe-refused", "the delete call for an existing node management subscription was refused%s", m.history())
@@ -952,6 +982,7 @@ func TestLocalTree(t *testing.T) {
 			"removeEntity": m.removeEntity,
 			"addFeature":   m.addFeature,
 			"addFeature2":  m.addFeature,
+			"addPending":   m.addPending,
 			"addFunction":  m.addFunction,
 			"addFunction2": m.addFunction,
 			"describe":     m.describe,
@@ -968,7 +999,7 @@ func TestLocalTree(t *testing.T) {
 		}
 		world.Record(world.Hash(m.hist), m.nontrivial,
 			fmt.Sprintf("maxEntities/%d", m.maxEnts), fmt.Sprintf("subscribedPeersAtEnd/%d-of-%d", m.subscribedPeers(), len(m.peers)),
-			fmt.Sprintf("dedup/%v", m.sawDedup), fmt.Sprintf("readd/%v", m.sawReadd), fmt.Sprintf("nested/%v", m.sawNested),
+			fmt.Sprintf("dedup/%v", m.sawDedup), fmt.Sprintf("addedOutOfNumberingOrder/%v", m.sawLateAdd), fmt.Sprintf("readd/%v", m.sawReadd), fmt.Sprintf("nested/%v", m.sawNested),
 			fmt.Sprintf("clientFunctionIgnored/%v", m.sawClientFn), fmt.Sprintf("removeNotifyChecked/%v", m.sawRemoveNotify))
 		if m.nontrivial && world.WantSample() {
 			world.Sample(map[string]any{"kind": "history", "history": m.hist})
